@@ -72,11 +72,14 @@ def make_problem(rng, t):
     u = tuple(rng.randrange(int(-r_px * 32), int(r_px * 32) + 1) / 32.0 for _ in range(2))
     if t % 7 == 0:
         u = (float(rng.randrange(-int(r_px), int(r_px) + 1)), u[1])
+    if use2d and t % 9 == 4:
+        u = (0.0, 0.0)          # catalogs already aligned: the histogram estimate is exactly zero
     refpx = [base[i] for i in ref_ids]
     impx = [(base[i][0] + u[0] + rng.randrange(-1, 2) * jit_px, base[i][1] + u[1] + rng.randrange(-1, 2) * jit_px)
             for i in im_ids]
     if use2d:
-        xo, yo = 0.0, 0.0
+        # xoffset / yoffset are documented as ignored when use2dhist=True: also when they are far from the truth
+        xo, yo = (0.0, 0.0) if t % 3 else (rng.choice([-1, 1]) * 3.5 * tol_px * p, rng.choice([-1, 1]) * 2.25 * tol_px * p)
     else:
         # user-supplied offset: the true shift with an error well inside the tolerance
         xo = (u[0] + rng.randrange(-8, 9) / 32.0 * tol_px) * p
